@@ -258,8 +258,10 @@ def write_evidence(prop, tier, seed, legs, wall, violations, extra_notes):
         ],
         "wall_s": round(wall, 2), "violations": violations,
     }
-    os.makedirs(os.path.join(VERIF, "evidence"), exist_ok=True)
-    path = os.path.join(VERIF, "evidence", prop + ".json")
+    # evidence describes /repo only: runs against a scratch copy (TULZ_REPO=..., mutant sweeps) must not overwrite it
+    evdir = os.path.join(VERIF, "evidence") if os.path.realpath(builder.REPO) == "/repo" else os.path.join(builder.BUILD, "evidence-scratch")
+    os.makedirs(evdir, exist_ok=True)
+    path = os.path.join(evdir, prop + ".json")
     with open(path + ".tmp", "w") as f:
         json.dump(ev, f, indent=1)
     os.rename(path + ".tmp", path)
